@@ -623,3 +623,39 @@ def c15_schedule(seed, tier):
             {"op": "jit_new", "g": 1, "t": 1}]
     S.case("pool map extraction", head + ops)
     return S
+
+
+# ---------------------------------------------------------------- C02 / C03
+def block_alg_corpus(kind, seed, tier, n_unit_words, long_words, salt):
+    """unit-bit seeds (every key/IV resp. seed bit), structured seeds, random seeds, long runs"""
+    rng = random.Random(seed * 1000003 + salt)
+    S = Sched()
+    nat = native_op(kind)
+    nbits = 256
+    units = range(nbits) if tier != "quick" else [b for b in range(nbits) if b % 8 in (0, 7) or b < 8 or b >= 248][:72]
+    for bit in units:
+        S.case("%s unit bit %d" % (kind, bit), [{"op": "from_seed", "g": 1, "kind": kind, "seed": unit_seed(kind, bit)},
+                                               {"op": nat, "g": 1, "n": n_unit_words}], weight=n_unit_words + 300)
+    structured = [[0] * 32, [0xFF] * 32, [0x80] * 32, list(range(32)), [0xAA, 0x55] * 16, [0] * 16 + [0xFF] * 16, [0xFF] * 16 + [0] * 16, [1] + [0] * 31]
+    for i, sd in enumerate(structured):
+        S.case("%s structured %d" % (kind, i), [{"op": "from_seed", "g": 1, "kind": kind, "seed": sd},
+                                                {"op": nat, "g": 1, "n": n_unit_words}], weight=n_unit_words + 300)
+    for r in range(4 if tier == "quick" else 64):
+        sd = [rng.getrandbits(8) for _ in range(32)]
+        ops = [{"op": "from_seed", "g": 1, "kind": kind, "seed": sd}]
+        left = n_unit_words * (1 if kind == "Hc128Rng" else 3)
+        while left > 0:
+            n = min(left, rng.choice([1, 5, 16, 17, 100, 256]))
+            ops.append({"op": nat, "g": 1, "n": n})
+            left -= n
+        S.case("%s random %d" % (kind, r), ops, weight=n_unit_words * 3 + 300)
+    for r in range(1 if tier == "quick" else 12):
+        sd = [rng.getrandbits(8) for _ in range(32)]
+        ops = [{"op": "from_seed", "g": 1, "kind": kind, "seed": sd}]
+        left = long_words
+        while left > 0:
+            n = min(left, 512)
+            ops.append({"op": nat, "g": 1, "n": n})
+            left -= n
+        S.case("%s long run %d" % (kind, r), ops, weight=long_words + 300)
+    return S
